@@ -76,13 +76,14 @@ example : ∀ alloc, ∀ e ∈ readDirEntries alloc true C17.f17Witness, e.longN
 
 /-- **C17.3** (both buffer variants, every slot list) if an entry carries a long name then the slots directly before
     its short slot form a complete run (first slot `0x40 | n`, `n = ` number of slots `≤ 20`, then ordinals `n−1 … 1`
-    unflagged, one checksum, equal to `lfnChecksum(sfn)`), and the name is that run's units with trailing
-    `0x0000`/`0xFFFF` stripped, at most 255 of them.  (Otherwise `units = []`: the short name is used.) -/
+    unflagged, one checksum, equal to `lfnChecksum(sfn)`), and the name is that run's units up to (excluding) the first
+    `0x0000` unit — all of them if there is none —, at most 255 of them.  (Otherwise `units = []`: the short name is
+    used.) -/
 theorem broken_run_falls_back (alloc skipVolume : Bool) (slots : List (List Nat)) :
     ∀ e ∈ readDirEntries alloc skipVolume slots, e.units ≠ [] →
       ∃ pre R post, slots = pre ++ R ++ e.sfn :: post ∧ e.endIdx = pre.length + R.length + 1 ∧
         CompleteRun (lfnChecksum (sfnName e.sfn)) R ∧ (∀ s ∈ R, slotClass s = .lfn) ∧
-        e.units = stripTrailing (runUnits R) ∧ e.units.length ≤ 255 := by
+        e.units = cutAtNul (runUnits R) ∧ e.units.length ≤ 255 := by
   intro e he hne
   have hlen := name_len_le_255 alloc skipVolume slots e he
   have hspec := readLoop_spec alloc skipVolume slots 0 [] (LongNameBuilder.new alloc) (Dead_new alloc) (Nat.le_refl 0)
@@ -91,24 +92,26 @@ theorem broken_run_falls_back (alloc skipVolume : Bool) (slots : List (List Nat)
   rw [hspec] at he
   obtain ⟨e', he', rfl⟩ := List.mem_map.1 he
   cases hr : e'.run with
-  | none => simp [specToModel, hr] at hne
+  | none => simp [specToModel, DirSpec.SpecEntry.name, hr] at hne
   | some r =>
     obtain ⟨pre, R, post, h1, h2, h3, h4, h5⟩ :=
       specLoop_run_sound skipVolume slots 0 [] [] rfl ⟨[], rfl⟩ (by simp) e' he' r hr
     refine ⟨pre, R, post, by simpa [specToModel] using h1, h2, h3, h4, ?_, hlen⟩
-    simp only [specToModel, hr] at hne ⊢
+    simp only [specToModel, DirSpec.SpecEntry.name, hr] at hne ⊢
     split at hne
-    · exact absurd rfl hne
     · rename_i hle
-      rw [if_neg hle, ← stripTrailing_eq_spec, h5]
+      rw [if_pos hle, Option.getD_some, ← cutAtNul_eq_spec, h5]
+    · exact absurd rfl hne
 
-/-- the converse: a complete run directly before a file entry whose checksum it carries IS honoured (both variants),
-    unless more than 255 units remain after stripping (then: no long name) -/
+/-- the converse: a complete run directly before a file entry whose checksum it carries IS honoured (both variants):
+    the name is the run's units before the first `0x0000` — unless more than 255 units remain (then: no long name).
+    In particular a run WITHOUT terminator whose tail is `0xFFFF` "padding" has those `0xFFFF` units as part of its
+    name (on the implementation's and on the specification's side alike). -/
 theorem complete_run_honoured (alloc skipVolume : Bool) (R : List (List Nat)) (sfn : List Nat)
     (hR : CompleteRun (lfnChecksum (sfnName sfn)) R) (hl : ∀ s ∈ R, slotClass s = .lfn)
     (hsfn : slotClass sfn = .file) :
     readDirEntries alloc skipVolume (R ++ [sfn]) =
-      [⟨sfn, if (stripTrailing (runUnits R)).length > 255 then [] else stripTrailing (runUnits R), 0,
+      [⟨sfn, if (cutAtNul (runUnits R)).length > 255 then [] else cutAtNul (runUnits R), 0,
         R.length + 1⟩] :=
   read_complete_run alloc skipVolume R sfn hR hl hsfn
 
@@ -123,17 +126,24 @@ theorem fixedbuf_leak_regression :
 
 /-- **C17.4 / C01.1** On EVERY slot list, in BOTH buffer variants, the reader returns exactly the entries of the
     independent backward-scanning specification parser `DirSpec.specEntries` — same short slots, same ranges, and as
-    long name the parser's complete run under the implementation's conventions (`specToModel`: all trailing
-    `0x0000`/`0xFFFF` stripped, dropped if more than 255 units remain). -/
+    long name the specification's own `SpecEntry.name` (the units of the complete run before the first `0x0000`,
+    1 … 255 of them; `[]` = no long name).  No convention gap is left: since commit 712f847 the implementation cuts at
+    the first NUL exactly as the specification parser does. -/
 theorem dirIter_spec (alloc skipVolume : Bool) (slots : List (List Nat)) :
-    readDirEntries alloc skipVolume slots = (DirSpec.specEntries skipVolume slots).map specToModel := by
+    readDirEntries alloc skipVolume slots =
+      (DirSpec.specEntries skipVolume slots).map fun e => ⟨e.sfn, e.name.getD [], e.beginIdx, e.endIdx⟩ := by
   have := readLoop_spec alloc skipVolume slots 0 [] (LongNameBuilder.new alloc) (Dead_new alloc) (Nat.le_refl 0)
+  have hfun : specToModel = fun e => ⟨e.sfn, e.name.getD [], e.beginIdx, e.endIdx⟩ := rfl
+  rw [hfun] at this
   simpa [runB, readDirEntries, DirSpec.specEntries] using this
 
-/-- where the implementation's conventions coincide with the specification's `SpecEntry.name`: a run with well-formed
-    padding whose name does not end in `0xFFFF` (F12 is the excluded point) -/
-theorem strip_eq_specName (name : List Nat) (hne : name ≠ []) (hlast : isPad (name.getLast hne) = false)
-    (pad : List Nat) (hpad : ∀ x ∈ pad, isPad x = true) : stripTrailing (name ++ pad) = name := by
-  rw [stripTrailing_append_pads _ _ hpad, stripTrailing_of_last_good _ hne hlast]
+/-- the cut rule on the two shapes of a run: name + terminator + anything, and name filling the run completely
+    (trailing `0xFFFF` units included) -/
+theorem cut_rule (name : List Nat) (hnz : ∀ x ∈ name, x ≠ 0) (pad : List Nat) :
+    cutAtNul (name ++ 0 :: pad) = name ∧ cutAtNul name = name :=
+  ⟨cutAtNul_append_nul name pad hnz, cutAtNul_of_nonzero name hnz⟩
+
+example : cutAtNul [0x61, 0xFFFF, 0xFFFF] = [0x61, 0xFFFF, 0xFFFF] ∧ cutAtNul [0x61, 0xFFFF, 0, 0xFFFF] = [0x61, 0xFFFF] := by
+  decide
 
 end FatVerif
